@@ -88,7 +88,7 @@ impl Prop for C07 {
             "JC2-MP: the 11 bytes after the header are 'splitnum', a NUL and two arbitrary bytes; the u16 count equals the number of listed players; the reply fits one 2048-byte datagram".into(),
             "Mindustry: strings contain no NUL, the reply fits 500 bytes".into(),
             "The Ship: the conversion must fail (PacketBad) when players or rules could not be gathered".into(),
-            "Eco: the loopback server answers with Content-Length and closes; floating point members are finite and compared with a relative tolerance of 1e-12 (JSON number parsing is not exact to the last bit)".into(),
+            "Eco: the loopback server frames the body with Content-Length, with chunked transfer coding or by closing the connection (chosen by a digest of the body); floating point members are finite and compared with a relative tolerance of 1e-12 (JSON number parsing is not exact to the last bit)".into(),
         ]
     }
 
@@ -237,7 +237,13 @@ impl Prop for C07 {
                     o.nontrivial = false;
                     return o;
                 };
-                server.set_json(&st.body());
+                // every way of framing the body: Content-Length, chunked, close-delimited
+                let body = st.body();
+                let salt = crate::runner::digest(body.as_bytes());
+                let framing = (salt % 3) as u8;
+                o.label(format!("eco-framing={}", ["content-length", "chunked", "close-delimited"][framing as usize]));
+                o.label(match body.len() { 0 ..= 5012 => "eco-body<=5012", 5013 ..= 20_000 => "eco-body<=20000", _ => "eco-body>20000" });
+                server.set_json_framed(&body, framing, salt);
                 let lo = IpAddr::V4(Ipv4Addr::LOCALHOST);
                 let port = server.port;
                 let mut run = run_plain(|| eco::query(&lo, Some(port)));
